@@ -1050,9 +1050,12 @@ impl Stdfs {
         let mut path = PathBuf::new();
         for component in abs.components() {
             path.push(component);
-            if !path.exists() {
+            if !path.exists() && fs::symlink_metadata(&path).is_err() {
                 fs::create_dir(&path)?;
                 fs::set_permissions(&path, fs::Permissions::from_mode(mode))?;
+            } else if !path.is_dir() || (path == abs && !Stdfs::is_dir(&path)) {
+                // Something that isn't a directory is in the way, link exclusion for the target itself
+                return Err(PathError::is_not_dir(&path).into());
             }
         }
         Ok(abs)
